@@ -16,6 +16,8 @@ import Mathlib.Analysis.SpecialFunctions.Exp
 import Mathlib.Analysis.Calculus.Deriv.Comp
 import Mathlib.Analysis.Calculus.Deriv.Add
 import Mathlib.Analysis.Calculus.Deriv.Mul
+import Mathlib.Analysis.Calculus.MeanValue
+import Mathlib.Analysis.SpecialFunctions.Trigonometric.Deriv
 /-!
 # C03 — discretised dynamics and integrals converge to the continuous-time model (partial)
 
@@ -343,6 +345,183 @@ theorem time_rescaling (f : E → ℝ → E) (y : ℝ → E) (t0 DT : ℝ) (hDT 
   exact this
 
 end rescaling
+
+/-! ### explicit Euler converges at order one for EVERY scalar ODE with a Lipschitz right-hand side and a C² solution
+
+Not only the linear test equation: local error from the mean value inequality (twice), Lipschitz one-step map, discrete Grönwall. -/
+section euler_general
+open Set
+
+/-- `global_error_from_local` for a step map that depends on the step index (explicit time dependence) -/
+theorem global_error_from_local_steps (Φ : ℕ → ℝ → ℝ) (x y : ℕ → ℝ) (h L C : ℝ) (p : Nat) (hh : 0 < h) (hL : 0 < L)
+    (hy : ∀ n, y (n+1) = Φ n (y n)) (hy0 : y 0 = x 0)
+    (hlip : ∀ n u v, |Φ n u - Φ n v| ≤ (1 + h * L) * |u - v|)
+    (hloc : ∀ n, |x (n+1) - Φ n (x n)| ≤ C * h^(p+1)) :
+    ∀ n, |x n - y n| ≤ C / L * h^p * ((1 + h * L)^n - 1) := by
+  intro n
+  have hstep : ∀ n, |x (n+1) - y (n+1)| ≤ (1 + h * L) * |x n - y n| + C * h^(p+1) := by
+    intro n
+    calc |x (n+1) - y (n+1)| = |(x (n+1) - Φ n (x n)) + (Φ n (x n) - Φ n (y n))| := by rw [hy n]; ring_nf
+      _ ≤ |x (n+1) - Φ n (x n)| + |Φ n (x n) - Φ n (y n)| := abs_add_le _ _
+      _ ≤ C * h^(p+1) + (1 + h * L) * |x n - y n| := add_le_add (hloc n) (hlip n _ _)
+      _ = (1 + h * L) * |x n - y n| + C * h^(p+1) := by ring
+  have hg := discrete_gronwall (fun n => |x n - y n|) (h * L) (C * h^(p+1)) (by positivity) hstep n
+  have h0 : |x 0 - y 0| = 0 := by rw [hy0]; simp
+  simp only [h0, mul_zero, zero_add] at hg
+  calc |x n - y n| ≤ C * h^(p+1) * (((1 + h * L)^n - 1) / (h * L)) := hg
+    _ = C / L * h^p * ((1 + h * L)^n - 1) := by
+        field_simp
+        ring
+
+/-- local error of one explicit Euler step along a C² solution: `|x(t+h) − x(t) − h·x'(t)| ≤ C₂·h²` -/
+theorem euler_local_error (x x1 x2 : ℝ → ℝ) (C2 t h : ℝ) (hh : 0 ≤ h)
+    (hx : ∀ s, HasDerivAt x (x1 s) s) (hx1 : ∀ s, HasDerivAt x1 (x2 s) s) (hb : ∀ s, |x2 s| ≤ C2) :
+    |x (t + h) - x t - h * x1 t| ≤ C2 * h ^ 2 := by
+  have hC2 : 0 ≤ C2 := le_trans (abs_nonneg _) (hb t)
+  -- the slope changes by at most C₂·|s − t|
+  have slope : ∀ s, |x1 s - x1 t| ≤ C2 * |s - t| := by
+    intro s
+    have := Convex.norm_image_sub_le_of_norm_hasDerivWithin_le (f := x1) (f' := x2) (s := univ) (x := t) (y := s)
+      (fun u _ => (hx1 u).hasDerivWithinAt) (fun u _ => by simpa using hb u) convex_univ (mem_univ _) (mem_univ _)
+    simpa using this
+  -- r(s) = x(s) − x(t) − (s − t)·x'(t) has derivative x'(s) − x'(t), at most C₂·h in size on [t, t+h]
+  have hr : ∀ s ∈ Icc t (t + h), HasDerivWithinAt (fun s => x s - x t - (s - t) * x1 t) (x1 s - x1 t) (Icc t (t + h)) s := by
+    intro s _
+    have h1 : HasDerivAt (fun s => x s - x t - (s - t) * x1 t) (x1 s - (1 * x1 t)) s :=
+      ((hx s).sub_const (x t)).sub (((hasDerivAt_id' s).sub_const t).mul_const (x1 t))
+    have e : x1 s - x1 t = x1 s - (1 * x1 t) := by ring
+    rw [e]
+    exact h1.hasDerivWithinAt
+  have bound : ∀ s ∈ Icc t (t + h), ‖x1 s - x1 t‖ ≤ C2 * h := by
+    intro s hs
+    have h1 := slope s
+    have h2 : |s - t| ≤ h := by rw [abs_of_nonneg (by linarith [hs.1])]; linarith [hs.2]
+    calc ‖x1 s - x1 t‖ = |x1 s - x1 t| := Real.norm_eq_abs _
+      _ ≤ C2 * |s - t| := h1
+      _ ≤ C2 * h := mul_le_mul_of_nonneg_left h2 hC2
+  have := Convex.norm_image_sub_le_of_norm_hasDerivWithin_le (f := fun s => x s - x t - (s - t) * x1 t)
+    (f' := fun s => x1 s - x1 t) (s := Icc t (t + h)) (x := t) (y := t + h) hr bound (convex_Icc _ _)
+    (by constructor <;> linarith) (by constructor <;> linarith)
+  simp only [sub_self, zero_mul, sub_zero, add_sub_cancel_left, Real.norm_eq_abs] at this
+  rw [abs_of_nonneg hh] at this
+  calc |x (t + h) - x t - h * x1 t| ≤ C2 * h * h := this
+    _ = C2 * h ^ 2 := by ring
+
+/-- **explicit Euler converges at order one**: for `x' = f(x, t)` with `f` `L`-Lipschitz in the state and a solution with
+`|x''| ≤ C₂`, the Euler iterates `y_{n+1} = y_n + h·f(y_n, t0 + n·h)` from `y_0 = x(t0)` satisfy
+`|x(t0 + n·h) − y_n| ≤ (C₂/L)·h·((1 + hL)^n − 1)` — for every step count and step size (this is the recursion C01 proves
+rockit's `intg='expl_euler'` runs, with `h = T/N/M`) -/
+theorem euler_convergence (f : ℝ → ℝ → ℝ) (x x2 : ℝ → ℝ) (y : ℕ → ℝ) (t0 h L C2 : ℝ) (hh : 0 < h) (hL : 0 < L)
+    (hsol : ∀ s, HasDerivAt x (f (x s) s) s) (hx2 : ∀ s, HasDerivAt (fun s => f (x s) s) (x2 s) s) (hb : ∀ s, |x2 s| ≤ C2)
+    (hlip : ∀ u v s, |f u s - f v s| ≤ L * |u - v|)
+    (hy0 : y 0 = x t0) (hy : ∀ n, y (n + 1) = y n + h * f (y n) (t0 + n * h)) :
+    ∀ n : ℕ, |x (t0 + n * h) - y n| ≤ C2 / L * h * ((1 + h * L) ^ n - 1) := by
+  intro n
+  have := global_error_from_local_steps (fun n u => u + h * f u (t0 + n * h)) (fun n => x (t0 + n * h)) y h L C2 1 hh hL
+    hy (by simpa using hy0)
+    (by
+      intro n u v
+      calc |u + h * f u (t0 + n * h) - (v + h * f v (t0 + n * h))|
+          = |(u - v) + h * (f u (t0 + n * h) - f v (t0 + n * h))| := by ring_nf
+        _ ≤ |u - v| + |h * (f u (t0 + n * h) - f v (t0 + n * h))| := abs_add_le _ _
+        _ = |u - v| + h * |f u (t0 + n * h) - f v (t0 + n * h)| := by rw [abs_mul, abs_of_pos hh]
+        _ ≤ |u - v| + h * (L * |u - v|) := by gcongr; exact hlip _ _ _
+        _ = (1 + h * L) * |u - v| := by ring)
+    (by
+      intro n
+      have e := euler_local_error x (fun s => f (x s) s) x2 C2 (t0 + n * h) h hh.le hsol hx2 hb
+      have e1 : t0 + ((n + 1 : ℕ) : ℝ) * h = t0 + n * h + h := by push_cast; ring
+      simp only [e1]
+      have e2 : x (t0 + n * h + h) - (x (t0 + n * h) + h * f (x (t0 + n * h)) (t0 + n * h)) =
+          x (t0 + n * h + h) - x (t0 + n * h) - h * f (x (t0 + n * h)) (t0 + n * h) := by ring
+      rw [e2]
+      simpa using e) n
+  simpa using this
+
+/-- non-vacuity: every hypothesis of `euler_convergence` holds for the state-dependent, explicitly time-dependent ODE
+`x' = -x + sin t + cos t` with the solution `x = sin t` (`L = 1`, `C₂ = 1`) -/
+example (y : ℕ → ℝ) (h : ℝ) (hh : 0 < h) (hy0 : y 0 = Real.sin 0)
+    (hy : ∀ n, y (n + 1) = y n + h * (-(y n) + Real.sin (0 + n * h) + Real.cos (0 + n * h))) :
+    ∀ n : ℕ, |Real.sin (0 + n * h) - y n| ≤ 1 / 1 * h * ((1 + h * 1) ^ n - 1) :=
+  euler_convergence (fun u s => -u + Real.sin s + Real.cos s) Real.sin (fun s => -Real.sin s) y 0 h 1 1 hh one_pos
+    (fun s => by convert Real.hasDerivAt_sin s using 1; ring)
+    (fun s => by
+      have : (fun s => -Real.sin s + Real.sin s + Real.cos s) = Real.cos := by funext s; ring
+      rw [this]; exact Real.hasDerivAt_cos s)
+    (fun s => by rw [abs_neg]; exact Real.abs_sin_le_one s)
+    (fun u v s => by
+      have : -u + Real.sin s + Real.cos s - (-v + Real.sin s + Real.cos s) = -(u - v) := by ring
+      rw [this, abs_neg, one_mul])
+    hy0 hy
+
+/-! the same for vector-valued states (any real normed space): the statement rockit's vector ODEs need -/
+section vector
+variable {E : Type} [NormedAddCommGroup E] [NormedSpace ℝ E]
+
+theorem euler_local_error_vec (x x1 x2 : ℝ → E) (C2 t h : ℝ) (hh : 0 ≤ h)
+    (hx : ∀ s, HasDerivAt x (x1 s) s) (hx1 : ∀ s, HasDerivAt x1 (x2 s) s) (hb : ∀ s, ‖x2 s‖ ≤ C2) :
+    ‖x (t + h) - x t - h • x1 t‖ ≤ C2 * h ^ 2 := by
+  have hC2 : 0 ≤ C2 := le_trans (norm_nonneg _) (hb t)
+  have slope : ∀ s, ‖x1 s - x1 t‖ ≤ C2 * |s - t| := by
+    intro s
+    have := Convex.norm_image_sub_le_of_norm_hasDerivWithin_le (f := x1) (f' := x2) (s := univ) (x := t) (y := s)
+      (fun u _ => (hx1 u).hasDerivWithinAt) (fun u _ => hb u) convex_univ (mem_univ _) (mem_univ _)
+    simpa using this
+  have hr : ∀ s ∈ Icc t (t + h), HasDerivWithinAt (fun s => x s - x t - (s - t) • x1 t) (x1 s - x1 t) (Icc t (t + h)) s := by
+    intro s _
+    have h1 : HasDerivAt (fun s => x s - x t - (s - t) • x1 t) (x1 s - ((1 : ℝ) • x1 t)) s :=
+      ((hx s).sub_const (x t)).sub (((hasDerivAt_id' s).sub_const t).smul_const (x1 t))
+    have e : x1 s - x1 t = x1 s - ((1 : ℝ) • x1 t) := by rw [one_smul]
+    rw [e]
+    exact h1.hasDerivWithinAt
+  have bound : ∀ s ∈ Icc t (t + h), ‖x1 s - x1 t‖ ≤ C2 * h := by
+    intro s hs
+    have h2 : |s - t| ≤ h := by rw [abs_of_nonneg (by linarith [hs.1])]; linarith [hs.2]
+    exact le_trans (slope s) (mul_le_mul_of_nonneg_left h2 hC2)
+  have := Convex.norm_image_sub_le_of_norm_hasDerivWithin_le (f := fun s => x s - x t - (s - t) • x1 t)
+    (f' := fun s => x1 s - x1 t) (s := Icc t (t + h)) (x := t) (y := t + h) hr bound (convex_Icc _ _)
+    (by constructor <;> linarith) (by constructor <;> linarith)
+  simp only [sub_self, zero_smul, sub_zero, add_sub_cancel_left, Real.norm_eq_abs] at this
+  rw [abs_of_nonneg hh] at this
+  calc ‖x (t + h) - x t - h • x1 t‖ ≤ C2 * h * h := this
+    _ = C2 * h ^ 2 := by ring
+
+/-- **explicit Euler converges at order one for vector ODEs** -/
+theorem euler_convergence_vec (f : E → ℝ → E) (x x2 : ℝ → E) (y : ℕ → E) (t0 h L C2 : ℝ) (hh : 0 < h) (hL : 0 < L)
+    (hsol : ∀ s, HasDerivAt x (f (x s) s) s) (hx2 : ∀ s, HasDerivAt (fun s => f (x s) s) (x2 s) s) (hb : ∀ s, ‖x2 s‖ ≤ C2)
+    (hlip : ∀ u v s, ‖f u s - f v s‖ ≤ L * ‖u - v‖)
+    (hy0 : y 0 = x t0) (hy : ∀ n, y (n + 1) = y n + h • f (y n) (t0 + n * h)) :
+    ∀ n : ℕ, ‖x (t0 + n * h) - y n‖ ≤ C2 / L * h * ((1 + h * L) ^ n - 1) := by
+  intro n
+  have hstep : ∀ n : ℕ, ‖x (t0 + (n + 1 : ℕ) * h) - y (n + 1)‖ ≤ (1 + h * L) * ‖x (t0 + n * h) - y n‖ + C2 * h ^ (1 + 1) := by
+    intro n
+    have e1 : t0 + ((n + 1 : ℕ) : ℝ) * h = t0 + n * h + h := by push_cast; ring
+    have loc := euler_local_error_vec x (fun s => f (x s) s) x2 C2 (t0 + n * h) h hh.le hsol hx2 hb
+    rw [e1, hy n]
+    have split : x (t0 + n * h + h) - (y n + h • f (y n) (t0 + n * h)) =
+        (x (t0 + n * h + h) - x (t0 + n * h) - h • f (x (t0 + n * h)) (t0 + n * h)) +
+        ((x (t0 + n * h) - y n) + h • (f (x (t0 + n * h)) (t0 + n * h) - f (y n) (t0 + n * h))) := by
+      rw [smul_sub]; abel
+    rw [split]
+    calc ‖_ + _‖ ≤ ‖x (t0 + n * h + h) - x (t0 + n * h) - h • f (x (t0 + n * h)) (t0 + n * h)‖ +
+          ‖(x (t0 + n * h) - y n) + h • (f (x (t0 + n * h)) (t0 + n * h) - f (y n) (t0 + n * h))‖ := norm_add_le _ _
+      _ ≤ C2 * h ^ 2 + (‖x (t0 + n * h) - y n‖ + h * (L * ‖x (t0 + n * h) - y n‖)) := by
+          apply add_le_add loc
+          refine le_trans (norm_add_le _ _) ?_
+          rw [norm_smul, Real.norm_eq_abs, abs_of_pos hh]
+          gcongr
+          exact hlip _ _ _
+      _ = (1 + h * L) * ‖x (t0 + n * h) - y n‖ + C2 * h ^ (1 + 1) := by ring
+  have hg := discrete_gronwall (fun n : ℕ => ‖x (t0 + n * h) - y n‖) (h * L) (C2 * h ^ (1 + 1)) (by positivity) hstep n
+  have h0 : ‖x (t0 + ((0 : ℕ) : ℝ) * h) - y 0‖ = 0 := by rw [hy0]; simp
+  simp only [h0, mul_zero, zero_add] at hg
+  calc ‖x (t0 + n * h) - y n‖ ≤ C2 * h ^ (1 + 1) * (((1 + h * L) ^ n - 1) / (h * L)) := hg
+    _ = C2 / L * h * ((1 + h * L) ^ n - 1) := by
+        field_simp
+
+end vector
+
+end euler_general
 
 /-! ### collocation: the exact solution of a quadrature problem satisfies the collocation equations
 
